@@ -46,7 +46,7 @@ IO_ON = {
 }
 
 
-def vary_tap_settings(cfg: Dict, rng: random.Random, mode_rng: Optional[random.Random] = None, force_fast: bool = False) -> None:
+def vary_tap_settings(cfg: Dict, rng: random.Random, mode_rng: Optional[random.Random] = None, force_fast: bool = False, zero_stage: Optional[str] = None) -> None:
     """Generated kill-chain options for the TAP001 / TAP003 threat-actor agents of the shipped UC7 scenarios (the
     topology and everything else stay as shipped): schedule, repeat flags, per-stage probabilities, scan settings."""
     exhaust = rng.random() < 0.34  # TAP001: a scan campaign that runs out of networks and has to choose again
@@ -84,6 +84,18 @@ def vary_tap_settings(cfg: Dict, rng: random.Random, mode_rng: Optional[random.R
         for stage, opts in (s.get("kill_chain") or {}).items():
             if isinstance(opts, dict) and "probability" in opts:
                 opts["probability"] = rng.choice([1, 1, 0.7, 0.4])
+        if zero_stage is not None:
+            # a quick, otherwise certain kill chain with one stage that can never be passed
+            s.update({"frequency": 2, "variance": 0, "start_step": 1, "repeat_kill_chain": False, "repeat_kill_chain_stages": True})
+            for stage, opts in (s.get("kill_chain") or {}).items():
+                if isinstance(opts, dict) and "probability" in opts:
+                    opts["probability"] = 0 if stage == zero_stage else 1
+            continue
+        if mode_rng is not None and mode_rng.random() < 0.25:
+            # one stage that can never be passed
+            stages = [k for k, o in (s.get("kill_chain") or {}).items() if isinstance(o, dict) and "probability" in o]
+            if stages:
+                s["kill_chain"][mode_rng.choice(sorted(stages))]["probability"] = 0
         if t == "tap-001":
             if rng.random() < 0.6:
                 s["starting_nodes"] = rng.sample(["ST_PROJ-A-PRV-PC-1", "ST_PROJ-B-PRV-PC-2", "ST_PROJ-C-PRV-PC-3"], rng.randint(1, 3))
@@ -101,7 +113,7 @@ def vary_tap_settings(cfg: Dict, rng: random.Random, mode_rng: Optional[random.R
             pay["continue_on_failed_exfil"] = rng.random() < 0.5
 
 
-def load_shipped(name: str, max_episode_length: Optional[int] = None, seed: Optional[int] = None, io: Optional[Dict] = None, tap_variation: Optional[int] = None, tap_fast: bool = False) -> Dict:
+def load_shipped(name: str, max_episode_length: Optional[int] = None, seed: Optional[int] = None, io: Optional[Dict] = None, tap_variation: Optional[int] = None, tap_fast: bool = False, tap_zero_stage: Optional[str] = None) -> Dict:
     """Load a shipped scenario unmodified except io_settings, game.seed and (to keep runs short) max_episode_length."""
     import yaml
 
@@ -113,7 +125,7 @@ def load_shipped(name: str, max_episode_length: Optional[int] = None, seed: Opti
     if seed is not None:
         cfg["game"]["seed"] = seed
     if tap_variation is not None:
-        vary_tap_settings(cfg, random.Random(tap_variation), mode_rng=random.Random(tap_variation * 7919 + 13), force_fast=tap_fast)
+        vary_tap_settings(cfg, random.Random(tap_variation), mode_rng=random.Random(tap_variation * 7919 + 13), force_fast=tap_fast, zero_stage=tap_zero_stage)
     return cfg
 
 
